@@ -215,8 +215,15 @@ def join_data(left_data, right_data, join_expr, right_expr=None, is_left_join=Fa
                 data.append(join_row)
         elif not is_left_join:
             data.append(dict(left_row))
+    _update_statement_count(options, eval_options)
 
     return data
+
+
+# Helper to carry the statement count of a copied evaluation options object back to the caller's options
+def _update_statement_count(options, eval_options):
+    if options is not None and eval_options is not options and 'statementCount' in eval_options:
+        options['statementCount'] = eval_options['statementCount']
 
 
 def add_calculated_field(data, field_name, expr, variables=None, options=None):
@@ -254,6 +261,7 @@ def add_calculated_field(data, field_name, expr, variables=None, options=None):
     # Compute the calculated field for each row
     for row in data:
         row[field_name] = evaluate_expression(calc_expr, eval_options, row)
+    _update_statement_count(options, eval_options)
 
     return data
 
@@ -293,6 +301,7 @@ def filter_data(data, expr, variables=None, options=None):
     for row in data:
         if value_boolean(evaluate_expression(filter_expr, eval_options, row)):
             result.append(row)
+    _update_statement_count(options, eval_options)
 
     return result
 
